@@ -6,6 +6,7 @@ CONSTANTS
   Configs = {1, 12}
   MaxList = 3
   GenMode = FALSE
+  SetAll = TRUE
   DEV_SpellingInEq = FALSE
 INVARIANT LawValid
 INVARIANT LawNormal
@@ -13,5 +14,6 @@ INVARIANT LawGrammar
 INVARIANT LawParse
 INVARIANT LawReprint
 INVARIANT LawRoundTripEqual
+INVARIANT LawSetPrint
 INVARIANT LawSolAll
 PROPERTY LawSpelling
